@@ -18,6 +18,151 @@ import sys
 
 HERE = os.path.dirname(os.path.abspath(__file__))
 TABLE = os.path.join(HERE, "reference_locals.json")
+SHAPES = os.path.join(HERE, "reference_shapes.json")
+
+# ---- orientation of comparisons and of two-armed conditionals
+# `a < b` / `b > a`, `if c: A else: B` / `if not c: B else: A` and `x if c else y` / `y if not c else x` are the same program.
+# Digests are computed on a fixed orientation; before the rules run each function is put back into the orientation the
+# reference tree uses (only these always-equivalent rewrites are applied; a comparison that is not the exact mirror image
+# of a reference comparison is left as written, so a genuinely changed operator or operand order still reaches the rules).
+_MIRROR = {ast.Lt: ast.Gt, ast.Gt: ast.Lt, ast.LtE: ast.GtE, ast.GtE: ast.LtE, ast.Eq: ast.Eq, ast.NotEq: ast.NotEq}
+
+
+def _mirror(n: ast.Compare):
+    n.left, n.comparators[0] = n.comparators[0], n.left
+    n.ops[0] = _MIRROR[type(n.ops[0])]()
+
+
+def _mirrorable(n):
+    return isinstance(n, ast.Compare) and len(n.ops) == 1 and type(n.ops[0]) in _MIRROR
+
+
+def _strip_not(t):
+    return t.operand if isinstance(t, ast.UnaryOp) and isinstance(t.op, ast.Not) else None
+
+
+def canon_expr(e):
+    """Copy of e in a fixed orientation (used for digests only)."""
+    import copy
+    e = copy.deepcopy(e)
+    for n in ast.walk(e):
+        if _mirrorable(n):
+            if isinstance(n.ops[0], (ast.Gt, ast.GtE)) or (isinstance(n.ops[0], (ast.Eq, ast.NotEq)) and ast.unparse(n.left) > ast.unparse(n.comparators[0])):
+                _mirror(n)
+    for n in ast.walk(e):
+        if isinstance(n, ast.IfExp) and _strip_not(n.test) is not None:
+            n.test = _strip_not(n.test)
+            n.body, n.orelse = n.orelse, n.body
+    return e
+
+
+def shapes_of(fn) -> dict:
+    cmps = sorted({ast.unparse(n) for n in ast.walk(fn) if _mirrorable(n)})
+    tests = sorted({ast.unparse(n.test) for n in ast.walk(fn) if isinstance(n, (ast.If, ast.IfExp))})
+    return {"cmp": cmps, "tests": tests, "locals": sorted(_locals(fn))}
+
+
+# ---- temporaries that the reference tree does not have
+# `t = E; return t` (or any simple statement using t once, right after) is the same program as `return E`.  A local that
+# the reference function does not have, and all of whose uses are such adjacent single uses, is inlined again before the
+# rules run; locals of the reference tree are never touched.
+_SIMPLE = (ast.Return, ast.Assign, ast.AugAssign, ast.AnnAssign, ast.Expr, ast.Raise, ast.Assert, ast.Delete)
+
+
+def _blocks(fn):
+    for n in ast.walk(fn):
+        for field in ("body", "orelse", "finalbody"):
+            b = getattr(n, field, None)
+            if isinstance(b, list) and b and isinstance(b[0], ast.stmt):
+                yield b
+
+
+def _header_loads(st, name):
+    """Load nodes of `name` evaluated exactly once when st starts; None if the name also occurs where that is not certain."""
+    if isinstance(st, _SIMPLE):
+        roots = [st]
+    elif isinstance(st, ast.If):
+        roots = [st.test]
+    elif isinstance(st, (ast.For, ast.AsyncFor)):
+        roots = [st.iter]
+    else:
+        roots = []
+    found = []
+
+    def rec(n, nested):
+        if isinstance(n, ast.Name) and n.id == name:
+            if nested or not isinstance(n.ctx, ast.Load):
+                raise ValueError
+            found.append(n)
+        for ch in ast.iter_child_nodes(n):
+            rec(ch, nested or isinstance(ch, (ast.Lambda, ast.FunctionDef, ast.AsyncFunctionDef, ast.GeneratorExp, ast.ListComp, ast.SetComp, ast.DictComp)))
+    try:
+        for r in roots:
+            rec(r, False)
+    except ValueError:
+        return None
+    inside = sum(1 for n in ast.walk(st) if isinstance(n, ast.Name) and n.id == name)
+    return found if inside == len(found) else None
+
+
+def inline_new_temporaries(fn, ref_locals) -> int:
+    new = set(_locals(fn)) - set(ref_locals)
+    if not new:
+        return 0
+    occ = {}
+    for n in ast.walk(fn):
+        if isinstance(n, ast.Name) and n.id in new:
+            occ.setdefault(n.id, []).append(n)
+    pairs = {}
+    for blk in _blocks(fn):
+        for i in range(len(blk) - 1):
+            st = blk[i]
+            if isinstance(st, ast.Assign) and len(st.targets) == 1 and isinstance(st.targets[0], ast.Name) and st.targets[0].id in new:
+                x = st.targets[0].id
+                if any(isinstance(m, ast.Name) and m.id == x for m in ast.walk(st.value)):
+                    continue
+                loads = _header_loads(blk[i + 1], x)
+                if loads is not None and len(loads) == 1:
+                    pairs.setdefault(x, []).append((blk, st, loads[0]))
+    k = 0
+    for x, ps in pairs.items():
+        if len(occ.get(x, ())) != 2 * len(ps):
+            continue
+        for blk, st, load in ps:
+            v = st.value
+            load.__class__ = v.__class__
+            load.__dict__.clear()
+            load.__dict__.update(v.__dict__)
+            blk.remove(st)
+            k += 1
+    return k
+
+
+def orient(fn, ref) -> int:
+    """Put mirrored comparisons / negated two-armed conditionals of fn back into the reference orientation."""
+    cmps, tests = set(ref.get("cmp", ())), set(ref.get("tests", ()))
+    k = 0
+    for n in ast.walk(fn):
+        if _mirrorable(n) and ast.unparse(n) not in cmps:
+            _mirror(n)
+            if ast.unparse(n) in cmps:
+                k += 1
+            else:
+                _mirror(n)
+    for n in ast.walk(fn):
+        if isinstance(n, ast.IfExp) or (isinstance(n, ast.If) and n.orelse):
+            x = _strip_not(n.test)
+            if ast.unparse(n.test) in tests:
+                continue
+            if x is not None and ast.unparse(x) in tests:
+                n.test = x
+                n.body, n.orelse = n.orelse, n.body
+                k += 1
+            elif x is None and ast.unparse(ast.UnaryOp(op=ast.Not(), operand=n.test)) in tests:
+                n.test = ast.copy_location(ast.UnaryOp(op=ast.Not(), operand=n.test), n.test)
+                n.body, n.orelse = n.orelse, n.body
+                k += 1
+    return k
 
 
 def _params(fn):
@@ -120,7 +265,7 @@ def local_digests(fn) -> dict:
         if e is None:
             return "None"
         e2 = _Sub(lambda nm: f"L_{dig(nm, stack)}" if nm in locs else nm).visit(_copy(e))
-        return ast.unparse(e2)
+        return ast.unparse(canon_expr(e2))
     order = sorted(defs, key=lambda n: defs[n][2])
     out, seen = {}, {}
     for n in order:
@@ -180,7 +325,30 @@ def build_reference(root: str) -> dict:
     return table
 
 
+def build_shapes(root: str) -> dict:
+    table = {}
+    pkg = os.path.join(root, "inferno")
+    for dp, _, fs in os.walk(pkg):
+        for f in sorted(fs):
+            if f.endswith(".py"):
+                p = os.path.join(dp, f)
+                rel = os.path.relpath(p, root)
+                for path, fn in functions_with_paths(ast.parse(open(p).read())):
+                    sh = shapes_of(fn)
+                    if sh["cmp"] or sh["tests"] or sh["locals"]:
+                        table[f"{rel}::{path}"] = sh
+    return table
+
+
 _table_cache = None
+_shapes_cache = None
+
+
+def load_shapes():
+    global _shapes_cache
+    if _shapes_cache is None:
+        _shapes_cache = json.load(open(SHAPES)) if os.path.exists(SHAPES) else {}
+    return _shapes_cache
 
 
 def load_table():
@@ -193,11 +361,22 @@ def load_table():
 def normalise(tree: ast.Module, rel: str) -> int:
     """Alpha-rename locals of every function in `tree` to the reference names; returns the number of renames."""
     table = load_table()
+    shapes = load_shapes()
     total = 0
     for path, fn in functions_with_paths(tree):
-        ref = table.get(f"{rel}::{path}")
+        total += _rename(fn, table.get(f"{rel}::{path}"))
+        sh = shapes.get(f"{rel}::{path}")
+        total += inline_new_temporaries(fn, sh.get("locals", ()) if sh else ())
+        if sh:
+            total += orient(fn, sh)
+    return total
+
+
+def _rename(fn, ref) -> int:
+    total = 0
+    if True:
         if not ref:
-            continue
+            return 0
         cur = local_digests(fn)
         params = _params(fn)
         names_in_use = {n.id for n in ast.walk(fn) if isinstance(n, ast.Name)} | params
@@ -211,9 +390,9 @@ def normalise(tree: ast.Module, rel: str) -> int:
             if want in names_in_use and want not in ren:
                 del ren[name]
         if len(set(ren.values())) != len(ren):
-            continue
+            return 0
         if not ren:
-            continue
+            return 0
         for n in ast.walk(fn):
             if isinstance(n, ast.Name) and n.id in ren:
                 n.id = ren[n.id]
@@ -229,3 +408,6 @@ if __name__ == "__main__":
         t = build_reference(root)
         json.dump(t, open(TABLE, "w"), indent=0, sort_keys=True)
         print(f"{len(t)} functions with locals; {sum(len(v) for v in t.values())} reference locals -> {TABLE}")
+        sh = build_shapes(root)
+        json.dump(sh, open(SHAPES, "w"), indent=0, sort_keys=True)
+        print(f"{len(sh)} functions with comparisons / conditionals -> {SHAPES}")
